@@ -27,7 +27,8 @@ def models_with_values(ref: RG, tag: str, K=None):
         rv, av = {}, {}
         for v in m.order:
             rv[v] = rng.randrange(m.card[v])
-            av[v] = rng.choice([x for x in range(m.card[v]) if x != rv[v]])
+            # (a one-valued constant has no alternative value; the drivers never give such a variable a value)
+            av[v] = rng.choice([x for x in range(m.card[v]) if x != rv[v]] or [rv[v]])
         out.append((h, m, rv, av))
     return out
 
@@ -58,6 +59,8 @@ def _post_cg(snap, res, graph, event):
 
     ref, ev = snap["ref"], snap["ev"]
     case = {"graph": gd_of(ref), "event": ev}
+    if mon_id.cards_hint():
+        case["cards"] = mon_id.cards_hint()
     if isinstance(kernel.LOG.case, dict) and kernel.LOG.case.get("again"):
         case["again"] = True  # second call of a history in which the caller edited the first answer
     if not valid_event(ref, ev) or not ev:
@@ -543,6 +546,8 @@ def _finish_idstar(snap, res, exc, graph, event):
 
     ref, ev = snap["ref"], snap["ev"]
     case = {"graph": gd_of(ref), "event": ev, "lines": sorted(FACTS.get("lines", ()))}
+    if mon_id.cards_hint():
+        case["cards"] = mon_id.cards_hint()
     if not ev:
         return
     if not valid_event(ref, ev):
@@ -667,6 +672,8 @@ def _finish_idcstar(snap, res, exc):
 
     ref, out, cond = snap["ref"], snap["out"], snap["cond"]
     case = {"graph": gd_of(ref), "outcomes": out, "conditions": cond, "lines": sorted(FACTS.get("lines", ()))}
+    if mon_id.cards_hint():
+        case["cards"] = mon_id.cards_hint()
     if not out or not cond or not valid_event(ref, out + cond):
         kernel.count("C08:invalid-input-skipped")
         return
